@@ -148,6 +148,22 @@ def part_b(rep, tier):
         cfgs.append((hist[0], dict(member, delay_ms=1),
                      ['--strategy', st, '-j', '1'],
                      {'strategy': st, 'n': f'm{st}'}))
+    # a sharing step accepted in a PARALLEL ddmin round (more than 2 x jobs
+    # subsets), followed by further rounds: one variable may be eliminated,
+    # never two at once, so the first acceptance falls into granularity 1
+    nv = 12
+    etext = ''.join(f'(declare-const x{k} Int)\n(declare-const y{k} Int)\n'
+                    for k in range(nv)) + ''.join(
+        f'(assert (= x{k} (+ y{k} 1)))\n(assert (> (* x{k} x{k}) 0))\n'
+        for k in range(nv)) + '(check-sat)\n'
+    espec = {'mode': 'atmost', 'tokens': [f'x{k}' for k in range(nv)],
+             'min_count': 4, 'max': 1, 'markers': ['check-sat'],
+             'delay_ms': 2}
+    for st, j in (('ddmin', 2), ('ddmin', 3), ('hybrid', 2)):
+        cfgs.append((etext, dict(espec),
+                     ['--strategy', st, '-j', str(j), '--disable-all',
+                      '--eliminate-variables'],
+                     {'strategy': st, 'n': f'e{st}{j}'}))
     for k, (text, spec) in enumerate(DIRECTED):
         for st in ('ddmin', 'hybrid', 'hierarchical'):
             for j in ((1, ) if tier == 'quick' else (1, 2)):
